@@ -1,15 +1,21 @@
 (* C10 — property theorems.  Model: C10/Model.v (frames, UsedByClosure marks, per-goroutine Run records and
-   pools, closures; goroutines interleave call / go-statement / mark / return / exit steps; unbounded goroutines).
-   [run true]: Comp.Go without the new goroutine's write `env2.Run = tg2` (fixes/C10-1.diff);
-   [run false]: the current tree.
-   Proved here: ownership of every Run / pool access on all interleavings (fixed code); the conflict on the
-   current code (witness replayed under the race detector by the harness).
-   NOT proved (hence `_partial`): absence of conflicts on frame fields (Env.Run / UsedByClosure / body) for the
-   fixed code and the statement "a frame reachable by two goroutines is already marked" - the invariants
-   (marks upward closed along Outer, pooled frames unmarked and unreachable) are stated in DESIGN but not yet
-   carried through the mark-walk steps; Go's channel / scheduler implementation is outside the model. *)
+   pools, closures; goroutines interleave call / go-statement / mark / return / exit steps; unbounded goroutines;
+   every loop iteration of MarkUsedByClosure is its own atomic step).
+   [run true]: Comp.Go without the new goroutine's write `env2.Run = tg2` (fix 5b8a5c8, the tree as it is now);
+   [run false]: the tree before the fix.
+   Proved here, over all interleavings: ownership of every Run / pool access; a frame reachable by two
+   goroutines is fully marked (itself and its whole Outer chain) and never pooled, no step of another
+   goroutine modifies it or writes one of its fields (C10_shared_frames_are_marked); pooled frames are
+   unreachable and freeEnv recycles only frames no other goroutine can reach; two co-enabled steps of
+   different goroutines never conflict on ANY interpreter-owned location (C10_no_model_race: Run, pool,
+   Env.Run, Env.UsedByClosure, Env body); the conflict on the pre-fix code (C10_no_model_race_refuted).
+   Invariants (Proof2.v): closure Envs fully marked; Outer of a stack frame fully marked or deeper in the same
+   stack; marked frames active; a marked frame not yet fully marked lies on the stack of the goroutine whose
+   MarkUsedByClosure walk is in progress, chained to that walk's cursor; the cursor is fully marked or on the
+   walker's own stack.
+   Outside the model: Go's channel / scheduler implementation; user-level data (user programs are race free). *)
 From Coq Require Import List Arith Bool ZArith.
-From Verif Require Import C10.Model C10.Proof.
+From Verif Require Import C10.Model C10.Proof C10.Proof2 C10.Proof3.
 Import ListNotations.
 
 (* every access of every step to a Run (Pool, PoolSize, CurrEnv ...) is by the goroutine whose identity owns it,
@@ -37,7 +43,7 @@ Qed.
 Print Assumptions C10_stack_frames_owned.
 
 (* no two co-enabled steps of different goroutines touch the same Run (identities distinct among live goroutines).
-   Partial: covers the Run / pool locations only, see the header. *)
+   Partial: covers the Run / pool locations only; the full statement is C10_no_model_race below. *)
 Theorem C10_no_model_race_partial : forall id0 tr s e1 e2 s1 s2 r w1 w2,
   run true (init id0) tr = Some s -> ids_inj s ->
   step true s e1 = Some s1 -> step true s e2 = Some s2 -> actor e1 <> actor e2 ->
@@ -67,3 +73,69 @@ Example C10_ex : exists s,
   t_stack (thr s 1) = [3] /\ t_stack (thr s 0) = [4; 1; 0] /\ t_stack (thr s 2) = [5] /\
   f_run (fr s 3) = 1 /\ f_run (fr s 4) = 0 /\ f_run (fr s 5) = 2 /\ owner s 2 = 9 /\ f_mark (fr s 2) = true.
 Proof. eexists. split. vm_compute. reflexivity. vm_compute. repeat split; reflexivity. Qed.
+
+(* ---------- frames shared between goroutines (Proof2.v, Proof3.v) ---------- *)
+
+(* [reach s t f]: goroutine t can touch frame f - a frame of its stack, the Env of any closure, the frames of its
+   MarkUsedByClosure walk, and everything on their Outer chains.
+   A frame reachable by two goroutines is marked UsedByClosure together with its whole Outer chain, is active (not in
+   a pool) ; a step of a goroutine other than one of the two leaves it unchanged and writes none of its fields - in
+   particular MarkUsedByClosure never writes to it and freeEnv never recycles it. Since t1 <> t2, every goroutine t
+   satisfies t <> t1 \/ t <> t2: the conclusion covers the steps of t1 and t2 themselves. *)
+Theorem C10_shared_frames_are_marked : forall id0 tr s t1 t2 f,
+  run true (init id0) tr = Some s -> t1 <> t2 -> reach s t1 f -> reach s t2 f ->
+  (forall a, anc (fr s) f a -> f_mark (fr s a) = true /\ f_st (fr s a) = FActive /\ a < nfr s) /\
+  (forall e s' t, step true s e = Some s' -> actor e = t -> (t <> t1 \/ t <> t2) ->
+     fr s' f = fr s f /\
+     forall l, In (l, true) (acc s e) -> floc l <> Some f).
+Proof. exact shared_frames_are_marked. Qed.
+Print Assumptions C10_shared_frames_are_marked.
+
+(* a step of one goroutine leaves every frame that ANOTHER goroutine can reach untouched (state-level non-interference,
+   independent of the hand-written access lists) *)
+Theorem C10_reachable_frames_stable : forall id0 tr s e s' t2 f,
+  run true (init id0) tr = Some s -> step true s e = Some s' -> t2 <> actor e -> reach s t2 f -> fr s' f = fr s f.
+Proof. exact reachable_frames_stable. Qed.
+Print Assumptions C10_reachable_frames_stable.
+
+(* frames sitting in a pool are reachable by nobody; the frame recycled by freeEnv was reachable by no other goroutine *)
+Theorem C10_pooled_frames_unreachable : forall id0 tr s t f r,
+  run true (init id0) tr = Some s -> f_st (fr s f) = FPooled r -> reach s t f -> False.
+Proof. exact pooled_unreachable. Qed.
+Print Assumptions C10_pooled_frames_unreachable.
+
+Theorem C10_freeEnv_recycles_private : forall id0 tr s t s' f r t2,
+  run true (init id0) tr = Some s -> step true s (EReturn t) = Some s' ->
+  f_st (fr s f) = FActive -> f_st (fr s' f) = FPooled r -> t2 <> t -> reach s t2 f -> False.
+Proof. exact return_recycles_private. Qed.
+Print Assumptions C10_freeEnv_recycles_private.
+
+(* the full statement: two co-enabled steps of different goroutines never access the same existing interpreter-owned
+   location (Run + pool, Env.Run, Env.UsedByClosure, Env body) unless both only read it.
+   [existing]: a Run allocated by one of the two steps themselves is private to it (fresh allocation). *)
+Theorem C10_no_model_race : forall id0 tr s e1 e2 s1 s2 l w1 w2,
+  run true (init id0) tr = Some s -> ids_inj s ->
+  step true s e1 = Some s1 -> step true s e2 = Some s2 -> actor e1 <> actor e2 ->
+  existing s l -> In (l, w1) (acc s e1) -> In (l, w2) (acc s e2) -> w1 = false /\ w2 = false.
+Proof. exact no_conflict. Qed.
+Print Assumptions C10_no_model_race.
+
+(* non-vacuity: in the final state of C10_ex frame 2 (the Env of the closure made in the go statement) is reachable by
+   goroutines 0 and 1 (both run a call of that closure), frame 1 by all three; a walk in progress is covered too *)
+Example C10_ex_shared : exists s,
+  run true (init 0) [ESpawnBegin 0 None; EMark 0; EMarkStep 0; EMarkStep 0; ESpawnGo 0 1 7;
+                     ECall 1 2 None; ECall 0 2 None; ESpawnBegin 1 None; EMark 1; EMarkStep 1] = Some s /\
+  reach s 0 2 /\ reach s 1 2 /\ reach s 1 1 /\ reach s 0 1 /\
+  t_pc (thr s 1) = TMark (Some 3) 5 /\ f_mark (fr s 5) = true /\ f_mark (fr s 3) = false /\
+  (exists e s', step true s e = Some s' /\ In (LFMark 3, true) (acc s e)).
+Proof.
+  eexists. split. vm_compute. reflexivity.
+  split; [apply r_clos; vm_compute; auto|].
+  split; [apply r_clos; vm_compute; auto|].
+  split; [apply r_clos; vm_compute; auto|].
+  split; [apply r_clos; vm_compute; auto|].
+  split; [vm_compute; reflexivity|].
+  split; [vm_compute; reflexivity|].
+  split; [vm_compute; reflexivity|].
+  exists (EMarkStep 1). eexists. split. vm_compute. reflexivity. vm_compute. auto.
+Qed.
